@@ -546,7 +546,8 @@ def analyze_round_classes(facts, fty):
     for inst in insts:
         ne = _reaches(facts, inst, ("rounding::round_nearest_tie_even",))
         tr = (not ne) and _reaches(facts, inst, ("rounding::round_down",))
-        if ne and _captures(inst):
+        cb_captures = any(t.get("k") == "closure" and t.get("upvars", 0) > 0 for t in inst.get("targs", []))
+        if ne and (cb_captures or _captures(inst)):
             n_ext += 1
             continue
         if not (ne or tr):
